@@ -9,14 +9,16 @@ prop=$(python3 -c "import json;print(json.load(open('$D/meta.json'))['property']
 demodir=$(python3 -c "import json;d=json.load(open('$D/meta.json')).get('demo_dir','.') or '.';print(d.split()[0].rstrip('/') if d.strip() else '.')")
 S=$(mktemp -d /tmp/vseed.XXXXXX); trap 'rm -rf "$S"' EXIT
 rsync -a --exclude .git --exclude example-output /repo/ "$S/"
+# a demonstration that needs a 32-bit build says so in its meta.json (GOARCH=386 runs natively here)
+DEMO_ENV=""; grep -q 'GOARCH=386' "$D/meta.json" 2>/dev/null && DEMO_ENV="GOARCH=386"
 rundemo() {
   if [ -f "$D/demo_test.go" ]; then
     mkdir -p "$S/$demodir"; cp "$D/demo_test.go" "$S/$demodir/zz_seed_demo_test.go"
-    (cd "$S/$demodir" && go test -vet=off -count=1 ${DEMO_FLAGS:-} -run "${DEMO_RUN:-.}" . 2>&1 | tail -${DEMO_LINES:-3}; exit ${PIPESTATUS[0]}); rc=$?
+    (cd "$S/$demodir" && env $DEMO_ENV go test -vet=off -count=1 ${DEMO_FLAGS:-} -run "${DEMO_RUN:-.}" . 2>&1 | tail -${DEMO_LINES:-3}; exit ${PIPESTATUS[0]}); rc=$?
     rm -f "$S/$demodir/zz_seed_demo_test.go"; return $rc
   else
     mkdir -p "$S/zz_seed_demo"; cp "$D"/demo/*.go "$S/zz_seed_demo/"
-    (cd "$S/zz_seed_demo" && go run ${DEMO_FLAGS:-} . 2>&1 | tail -${DEMO_LINES:-3}; exit ${PIPESTATUS[0]}); rc=$?
+    (cd "$S/zz_seed_demo" && env $DEMO_ENV go run ${DEMO_FLAGS:-} . 2>&1 | tail -${DEMO_LINES:-3}; exit ${PIPESTATUS[0]}); rc=$?
     rm -rf "$S/zz_seed_demo"; return $rc
   fi
 }
